@@ -692,6 +692,17 @@ class Evaluator:
         fn = e.func
         args = [self.expr(a, env, f, depth) for a in e.args]
         kws = {k.arg: self.expr(k.value, env, f, depth) for k in e.keywords}
+        if isinstance(fn, ast.Call) and isinstance(fn.func, ast.Name) and fn.func.id == "getattr" and len(fn.args) == 2 \
+                and isinstance(fn.args[0], ast.Name) and fn.args[0].id == "self" and "self" not in env and f.cls is not None:
+            nm_ = self.expr(fn.args[1], env, f, depth)
+            m_ = f.cls.find_method(nm_) if isinstance(nm_, str) else None
+            if m_ is None:
+                raise AnalysisError("getattr(self, %r) does not name a method for the table extractor (%s)" % (nm_, f.loc(e)))
+            selfenv = {k: x for k, x in env.items() if k.startswith("self.")}
+            try:
+                return self.call(m_, self._bind(m_, args, kws, m_.name), selfenv, depth + 1)
+            finally:
+                env.update(selfenv)
         if isinstance(fn, (ast.Subscript, ast.IfExp)) or (isinstance(fn, ast.Name) and fn.id in env):
             # a local variable (or a table entry: TABLE[key](...)) that holds a callable of the package: a function, a method
             # of the object, a bound method, a lambda
